@@ -530,7 +530,8 @@ def complete_env(case, built):
     """Premise of the exact-reproduction clause, from the generator's description: the build-time environment holds
     everything the top table asks for -- following every setup line that is not --external and whose product is set
     up, descending into that product's build-version table unless the line carries -j, no required product is missing.
-    (It is false e.g. when `c -j` was set up first and a later plain request for c hit the already-set-up short cut.)"""
+    (It is false e.g. when `c -j` was set up first and a later plain request for c hit the already-set-up short cut, so
+    that c's own dependencies -- required or optional -- were never attempted.)"""
     def ok(n, v, seen):
         lines = build_table(case, n, v)
         if lines is None:
@@ -544,7 +545,10 @@ def complete_env(case, built):
                 continue
             q = l["name"]
             if q not in built:
-                if not l["optional"]:
+                # a missing optional product is fine only if it could not be set up at all; in the conflict-free stream
+                # every declared product can (its required dependencies are declared), so a declared one that is missing
+                # was never attempted: its requester was set up with -j first and short-cut afterwards
+                if not l["optional"] or q in (case.get("build") or {}):
                     return False
                 continue
             if "-j" not in fl and not ok(q, built[q], seen):
@@ -805,6 +809,95 @@ def exhaustive_cases(maxlen, chunk=150):
     return cases
 
 
+# ---- shrinking ------------------------------------------------------------------------------------------------
+
+def eval_one(ctx, case):
+    """-> (result, [(clause, class, detail, expansion)], {expansion: (impl_view, model_view)})"""
+    (r,) = run_chunk([case])
+    views = {}
+    if r.get("build_ok") is not True:
+        return r, [], views
+    for ei, exp in enumerate(r["exps"]):
+        if "answers" in exp and "skip" not in exp and "child" not in exp:
+            views[ei] = (impl_view(exp), model_view(ctx.lean.ask(model_request(exp))))
+    return r, list(oracle_case(case, r)), views
+
+
+def shrink_case(ctx, case, clause, ei, budget=60):
+    """Delta-debug the generator-level description while some expansion still fails `clause`."""
+    tests = [0]
+
+    def still(c):
+        if tests[0] >= budget:
+            return False
+        tests[0] += 1
+        try:
+            _, fails, _ = eval_one(ctx, c)
+        except Exception:  # noqa
+            return False
+        return any(f[0] == clause for f in fails)
+
+    cur = json.loads(json.dumps(case_input(case)))
+    # 1. only the failing expansion
+    cand = dict(cur)
+    cand["variants"] = [cur["variants"][ei - 1]] if ei > 0 else []
+    if cand["variants"] != cur["variants"] and still(cand):
+        cur = cand
+    # 2. no syntactic decoration, no expanded dependency tables, no CLI run
+    cand = json.loads(json.dumps(cur))
+    for _, _, lines in cand["decl"]:
+        for l in lines:
+            if l["k"] == "setup":
+                l["deco"] = {}
+    cand["expanded_deps"], cand["cli_check"] = [], False
+    if still(cand):
+        cur = cand
+    # 3. shorter history, fewer products, fewer lines in the top table
+    for field in ("evolve", "decl"):
+        keep = [e for e in cur[field] if field == "decl" and e[:2] == cur["top"]]
+        rest = [e for e in cur[field] if e not in keep]
+        if not rest:
+            continue
+        if still(dict(cur, **{field: keep})):
+            cur = dict(cur, **{field: keep})
+        else:
+            small = common.ddmin(rest, lambda sub: still(dict(cur, **{field: keep + sub})), max_tests=15)
+            cur = dict(cur, **{field: keep + small})
+    top = [e for e in cur["decl"] if e[:2] == cur["top"]][0]
+    others = [e for e in cur["decl"] if e[:2] != cur["top"]]
+
+    def with_top(lines):
+        return dict(cur, decl=[[top[0], top[1], lines]] + others)
+    if len(top[2]) > 1:
+        small = common.ddmin(top[2], lambda sub: still(with_top(sub)), max_tests=20)
+        cur = with_top(small)
+    return cur
+
+
+def shrink_failures(ctx, limit=3):
+    done = set()
+    for fl in ctx.failures:
+        if fl["clause"] in done or len(done) >= limit or ctx.time_left() < 20:
+            continue
+        if not isinstance(fl["input"], dict) or "case" not in fl["input"]:
+            continue
+        done.add(fl["clause"])
+        ei = fl["input"].get("expansion", 0)
+        try:
+            small = shrink_case(ctx, fl["input"]["case"], fl["clause"], ei)
+            r, fails, views = eval_one(ctx, small)
+        except Exception as e:  # noqa
+            ctx.note("shrinking failed: %r" % e)
+            continue
+        same = [f for f in fails if f[0] == fl["clause"]]
+        if not same:
+            continue
+        cl, cls, detail, nei = same[0]
+        iv, mv = views.get(nei, (None, None))
+        fl.update(input={"case": small, "expansion": nei}, impl_output=iv, model_output=mv, note=detail + " [shrunk from %s]" % common.digest(fl["input"]),
+                  finding_class=cls)
+
+
 def run(ctx):
     cases = corpus_cases()
     ctx.hist("corpus", len(cases))
@@ -813,13 +906,15 @@ def run(ctx):
     ex = exhaustive_cases(ctx.n(2, 3))
     ctx.hist("exhaustive_small_tables", sum(len(c["variants"]) for c in ex))
     evaluate(ctx, ex)
-    n = ctx.n(1200, 30000)
+    n = ctx.n(1500, 30000)
     batch = 120
     done = 0
     while done < n and not ctx.out_of_time():
         k = min(batch, n - done)
         evaluate(ctx, [L.gen_case(ctx.rng) for _ in range(k)])
         done += k
+    if ctx.failures:
+        shrink_failures(ctx)
     h = ctx.histogram
     if ctx.evaluations >= 100:
         if h.get("build=True", 0) < 0.5 * ctx.evaluations:
